@@ -22,10 +22,10 @@ theorem loadBits_length {n : Nat} {bits s r : Bits} (h : loadBits n bits = some 
     simp only [Option.some.injEq, Prod.mk.injEq] at h
     rw [← h.1, List.length_take]; omega
 
-/-- the label returned by `deserialize_hml` has the announced length -/
-theorem deserializeHml_length {bits : Bits} {m : Int} {n : Nat} {s rest : Bits}
-    (h : deserializeHml bits m = some (n, s, rest)) : s.length = n := by
-  unfold deserializeHml at h
+/-- the label read by the constructor branches of `deserialize_hml` has the announced length -/
+theorem readHml_length {bits : Bits} {m : Int} {n : Nat} {s rest : Bits}
+    (h : readHml bits m = some (n, s, rest)) : s.length = n := by
+  unfold readHml at h
   split at h
   · cases h
   · simp only [Option.bind_eq_bind, Option.bind_eq_some_iff] at h
@@ -46,10 +46,16 @@ theorem deserializeHml_length {bits : Bits} {m : Int} {n : Nat} {s rest : Bits}
     obtain ⟨rfl, rfl, rfl⟩ := h3
     simp
 
+/-- the label returned by `deserialize_hml` has the announced length -/
+theorem deserializeHml_length {bits : Bits} {m : Int} {n : Nat} {s rest : Bits}
+    (h : deserializeHml bits m = some (n, s, rest)) : s.length = n :=
+  readHml_length (deserializeHml_some.1 h).1
+
 /-! ### `parse_aug` on constructed cells: what a successful parse says -/
 
 mutual
-  /-- below a negative remaining key length (label longer than the key) there are no leaves -/
+  /-- below a negative remaining key length there are no leaves (since the `{n <= m}` repair of `deserialize_hml` an ordinary
+  cell is refused there outright, `Proofs.Hashmap.deserializeHml_le`; this weaker form is all `parseAugP_lookup` needs) -/
   theorem parseAugP_neg {X : Type} (decY : PSlice → Option PSlice) (decX : PSlice → Option X) :
       ∀ (c : PCell) (keyLen : Int) (pfx : Bits) (kv : List (Bits × X)),
         keyLen < 0 → parseAugP decY decX c keyLen pfx = some kv → kv = []
